@@ -334,6 +334,52 @@ func c15Sequences(t *shRun, envs []*sgEnv) {
 				if v2 != "reject" {
 					c.Violation("C15:seq:accepted:output-replace", fmt.Sprintf("%s: sequence shuffle with a replaced output ciphertext accepted (nq=%d k=%d)", e.name, nq, k), rep)
 				}
+				// a mixer that drops a column of every sequence (or a whole sequence) and shuffles and proves honestly
+				// for what is left: the claimed output is not a permutation of re-encryptions of the input
+				for _, drop := range []string{"column", "sequence"} {
+					var Xr, Yr [][]kyber.Point
+					er := eS
+					switch {
+					case drop == "column" && k >= 3:
+						for j := 0; j < nq; j++ {
+							Xr = append(Xr, X[j][:k-1])
+							Yr = append(Yr, Y[j][:k-1])
+						}
+					case drop == "sequence" && nq >= 2:
+						Xr, Yr, er = X[:nq-1], Y[:nq-1], eS[:nq-1]
+					default:
+						continue
+					}
+					var xb2, yb2 [][]kyber.Point
+					var pr2 []byte
+					if kc.Recover(func() string {
+						var gp func(e []kyber.Scalar) (proof.Prover, error)
+						xb2, yb2, gp = shuffle.SequencesShuffle(e.suite, G, H, Xr, Yr, kc.NewRng(seed+1))
+						p, err := gp(er)
+						if err != nil {
+							return "err"
+						}
+						pr2, err = proof.HashProve(e.suite, "PairShuffle", p)
+						if err != nil {
+							return "err"
+						}
+						return "ok"
+					}) != "ok" {
+						continue
+					}
+					v3 := kc.Recover(func() string {
+						a, b, cc, d := shuffle.GetSequenceVerifiable(e.suite, X, Y, xb2, yb2, eS)
+						if proof.HashVerify(e.suite, "PairShuffle", shuffle.Verifier(e.suite, G, H, a, b, cc, d), pr2) != nil {
+							return "reject"
+						}
+						return "accept"
+					})
+					c.Eval(1)
+					c.CountKind(fmt.Sprintf("%s:seq:dropped-%s:%s", e.name, drop, v3))
+					if v3 == "accept" {
+						c.Violation("C15:seq:accepted:dropped-"+drop, fmt.Sprintf("%s: a sequence shuffle whose output lacks a %s of the input is accepted (nq=%d k=%d)", e.name, drop, nq, k), rep)
+					}
+				}
 				if !known {
 					continue
 				}
